@@ -465,6 +465,9 @@ func c15Conn(in *c15In) c15Out {
 		}
 	}
 	for _, m := range in.Mut {
+		if len(m) < 3 {
+			continue
+		}
 		b := q
 		if c15Str(m[0]) == "p" {
 			b = p
@@ -499,6 +502,10 @@ func c15Conn(in *c15In) c15Out {
 		return b[pos : pos+n]
 	}
 	for ci, call := range in.Calls {
+		// tolerate cut-down scripts (the shrinker drops elements)
+		if len(call) == 0 || (c15Str(call[0]) == "c" && len(call) < 3) || ((c15Str(call[0]) == "r" || c15Str(call[0]) == "w") && len(call) < 4) {
+			continue
+		}
 		switch c15Str(call[0]) {
 		case "r":
 			chunk := take(rbytes, rpos, c15Num(call[1]))
